@@ -141,7 +141,11 @@ class MystReferenceResolver(ReferencesResolver):
                 MystWarnings.XREF_MISSING,
                 location=node,
             )
-            node.replace_self(node[0].deepcopy())
+            inner = node[0].deepcopy()
+            if not inner.children:
+                # ensure the output has some content, as for other unresolved references
+                inner += nodes.literal(ref_docname, ref_docname)
+            node.replace_self(inner)
             return
 
         targetid = ""
@@ -168,10 +172,14 @@ class MystReferenceResolver(ReferencesResolver):
             caption = node.astext()
             innernode = nodes.inline(caption, "", classes=inner_classes)
             innernode.extend(node[0].children)
-        else:
+        elif implicit_text:
             innernode = nodes.inline(
                 implicit_text, implicit_text, classes=inner_classes
             )
+        else:
+            # nothing to show (e.g. the id was not found): show the target
+            target = f"{ref_docname}#{ref_id}" if ref_id else ref_docname
+            innernode = nodes.literal(target, target, classes=inner_classes)
 
         assert self.app.builder
         try:
